@@ -179,6 +179,11 @@ func (fl *File) Write(p []byte) (int, error) {
 	seq, fail := fl.fs.point("File.Write", fl.path)
 	data := append([]byte{}, p...)
 	if fail {
+		if fl.fs.Fault.Kind == "short1" && len(p) > 0 {
+			n, _ := fl.File.Write(p[:len(p)-1])
+			fl.fs.rec(Event{Seq: seq, Op: "File.Write", Path: fl.path, Data: data, N: n, Err: "short write, last byte not written (injected)"})
+			return n, nil
+		}
 		if fl.fs.Fault.Kind == "short" && len(p) > 0 {
 			n, _ := fl.File.Write(p[:len(p)/2])
 			fl.fs.rec(Event{Seq: seq, Op: "File.Write", Path: fl.path, Data: data, N: n, Err: "short write (injected)"})
